@@ -35,4 +35,40 @@ def tryFrom (bits x : Nat) : Option Nat := if x < 2 ^ bits then some x else none
 /-- `Duration::new(secs, nanos)` (the carry of `nanos ≥ 10^9` into the seconds is the same number). -/
 def durationNew (secs nanos : Nat) : Nat := secs * 1000000000 + nanos
 
+/-- Result of a translated function that can fail: a value, an `Err(_)` (named after the error's constructor), or a
+    panic (named after the operation that panicked). -/
+inductive Out (α : Type) where
+  | ok : α → Out α
+  | err : String → Out α
+  | panic : String → Out α
+  deriving Repr
+
+/-- every way out of a function that works on a `&mut` buffer leaves the buffer's contents behind -/
+def Out.withState {α σ : Type} (o : Out α) (s : σ) : Out (α × σ) :=
+  match o with
+  | .ok a => .ok (a, s)
+  | .err e => .err e
+  | .panic p => .panic p
+
+/-- `u64::from_be_bytes` (any number of bytes: most significant first). -/
+def fromBe (b : List UInt8) : Nat := b.foldl (fun acc x => acc * 256 + x.toNat) 0
+
+/-- `&buf[..n]`: panics (`none`) when `n` is beyond the end. -/
+def slicePrefix (buf : List UInt8) (n : Nat) : Option (List UInt8) :=
+  if n ≤ buf.length then some (buf.take n) else none
+
+/-- `Buf::advance(n)`: panics when fewer than `n` bytes remain. -/
+def advance (buf : List UInt8) (n : Nat) : Option (List UInt8) :=
+  if n ≤ buf.length then some (buf.drop n) else none
+
+/-- `Buf::get_u8()`: the byte and the rest; panics on an empty buffer. -/
+def getU8 (buf : List UInt8) : Option (Nat × List UInt8) :=
+  match buf with
+  | [] => none
+  | b :: r => some (b.toNat, r)
+
+/-- `BytesMut::split_to(n)`: the first `n` bytes and the rest; panics when `n` is beyond the end. -/
+def splitTo (buf : List UInt8) (n : Nat) : Option (List UInt8 × List UInt8) :=
+  if n ≤ buf.length then some (buf.take n, buf.drop n) else none
+
 end Selium.Rs
